@@ -66,6 +66,12 @@ def gen_bundle(rng, hist):
     if p['flags'] & A.F_FRAG:
         rem = max(p['tlen'] - p['foff'], 1)
         plen = rng.choice([rem, min(3, rem)])
+        if mode == 'repeat' and rng.random() < 0.7:
+            # a true repeat of a fragment has the same payload length (part of the identity)
+            plen = len(base['blocks'][-1]['btsd']) // 2
+        elif mode == 'alike' and which == 'tlen':
+            # total length is not part of the identity: differ in the payload length instead half of the time
+            plen = rng.choice([plen, plen + 1])
     else:
         plen = rng.randrange(1, 6)
     payload = bytes(rng.randrange(256) for _ in range(plen))
@@ -149,7 +155,7 @@ def monitors(chk, case, items, obs):
         ndel = sum(len(o['delivered']) for o in main)
         txs = [h for o in main for h in o['tx'] + o.get('frag_tx', [])]
         fw, rp = classify_tx(txs)
-        idt = A.ident_of(p)
+        idt = A.ident_of(p, it['b']['blocks'])
         dest = A.eid_text(p['dest'])
         own = A.eid_text(p['src']) == A.NODE_TEXT
         if (not it['crc_ok']) or own or idt in accepted:
@@ -264,6 +270,12 @@ def run(chk):
     rng = chk.rng
     n_cases = 400 if chk.tier == 'quick' else 12000
     batch = []
+    for rec in A.corpus('C10'):
+        r = rec['replay']
+        case = {'rx': [tuple(x) for x in r['rx']], 'tx': [tuple(x) for x in r['tx']],
+                'items': [dict(it, data=bytes.fromhex(it['data'])) for it in r['items']]}
+        fix, events, obs = run_case(chk, case)
+        batch.append((case, events, obs, fix.seen()))
     for i in range(n_cases):
         n = rng.choice([1, 2, 3, 4, 6, 8, 12]) if i % 7 else 12
         tx = [('.*', None)] if rng.random() < 0.85 else [(r'dtn://a/.*', None), (r'dtn://rpt/.*', None)]
